@@ -2,6 +2,7 @@ package main
 
 import (
 	"fmt"
+	"strings"
 	"go/types"
 
 	"golang.org/x/tools/go/ssa"
@@ -33,6 +34,52 @@ func runC14(r *Run) {
 				r.ExpectArg(c, short(w)+":fix.service", 0, "p1.issuanceChainService")
 				r.ExpectArg(c, short(w)+":fix.leaf", 2, "iface(trillian.TrillianLogClient).*(*)#0.Leaf || iface(trillian.TrillianLogClient).*(*)#0.Leaves[(1 + it@*)]")
 			}
+		}
+	}
+	// must-pass-through: a leaf that is present is never served without having passed
+	// FixLogLeaf — the only condition under which the call may be skipped is "no leaf"
+	if fn := r.Fn("trillian/ctfe.rpcGetEntryAndProof"); fn != nil {
+		fix := CallsTo(fn, "iface(trillian/ctfe.leafChainBuilder).FixLogLeaf")
+		if len(fix) == 1 {
+			s := Sigma{}
+			for k := range r.D.AtomsOf(fn) {
+				if glob("nil?iface(trillian.TrillianLogClient).GetEntryAndProof(*)#0.Leaf", k) {
+					s[k] = "non"
+				}
+				if glob("nil?iface(trillian.TrillianLogClient).GetEntryAndProof(*)#1", k) {
+					s[k] = "nil"
+				}
+			}
+			reach := r.D.Walk(fn, s, nil, map[*ssa.BasicBlock]bool{fix[0].Block(): true})
+			r.Valuations++
+			ok := len(s) >= 1
+			for _, ret := range successReturns(fn) {
+				if reach.Has(ret) {
+					ok = false
+				}
+			}
+			r.Check("rpcGetEntryAndProof:present-leaf-always-fixed", ok, r.Where(fix[0]), "with a leaf present, the success return cannot be reached around FixLogLeaf (the call may be skipped only when the reply has no leaf)")
+		}
+	}
+	if fn := r.Fn("trillian/ctfe.rpcGetLeavesByRange"); fn != nil {
+		fix := CallsTo(fn, "iface(trillian/ctfe.leafChainBuilder).FixLogLeaf")
+		if len(fix) == 1 {
+			// from the loop body's first block, every path to the next iteration or to a return passes the call
+			body := fix[0].Block()
+			for len(body.Preds) == 1 && body.Preds[0].Comment != "rangeindex.loop" && body.Preds[0] != body {
+				body = body.Preds[0]
+			}
+			reach := r.D.Walk(fn, Sigma{}, body, map[*ssa.BasicBlock]bool{fix[0].Block(): true})
+			r.Valuations++
+			ok := true
+			if body != fix[0].Block() {
+				for b := range reach.Blocks {
+					if b != body && (b.Comment == "rangeindex.loop" || len(b.Succs) == 0) {
+						ok = false
+					}
+				}
+			}
+			r.Check("rpcGetLeavesByRange:every-leaf-fixed", ok, r.Where(fix[0]), "inside the loop over the reply's leaves no path reaches the next leaf or a return around FixLogLeaf")
 		}
 	}
 	// the loop in rpcGetLeavesByRange covers every leaf of the reply: it ranges over rsp.Leaves
@@ -302,6 +349,9 @@ func runC14(r *Run) {
 		}
 	}
 
+	r.Rule("C14.R8")
+	c14Storage(r)
+
 	r.Rule("C14.R7")
 	// prefix widths of the four layouts (what FixLogLeaf's probing order assumes)
 	for _, w := range []struct{ typ, field, tag string }{
@@ -342,5 +392,77 @@ func c14Who(r *Run) {
 			}
 		}
 		r.Check("who:"+rpc, len(got[owner]) == 1, "-", owner+" issues the RPC (positive control)")
+	}
+}
+
+// c14Storage: a storage write failure is reported.  The SQL back ends return the
+// driver's error; the only error an Add may swallow is "this key already exists"
+// (MySQL 1062), because then the chain is stored.
+func c14Storage(r *Run) {
+	for _, q := range []string{"(*trillian/ctfe/storage/mysql.IssuanceChainStorage).Add", "(*trillian/ctfe/storage/postgresql.IssuanceChainStorage).Add"} {
+		fn := r.Fn(q)
+		if fn == nil {
+			continue
+		}
+		k := "storage.Add:" + strings.Split(q, ".")[0][len("(*trillian/ctfe/storage/"):]
+		ex := CallsTo(fn, "(*sql.DB).ExecContext")
+		if len(ex) != 1 {
+			r.Fail(k, r.FnPos(fn), "undecided: expected one ExecContext")
+			continue
+		}
+		// variadic (key, chain) in that order
+		okArgs := false
+		if sl, isSl := CallArgs(ex[0])[3].(*ssa.Slice); isSl {
+			if arr, isA := sl.X.(*ssa.Alloc); isA {
+				a0, a1 := r.StoresTo(fn, "&("+r.D.allocName(arr)+"[0])"), r.StoresTo(fn, "&("+r.D.allocName(arr)+"[1])")
+				okArgs = len(a0) == 1 && len(a1) == 1 && r.D.D(a0[0].Val) == "p2" && r.D.D(a1[0].Val) == "p3"
+			}
+		}
+		r.Check(k+":key-then-chain", okArgs, r.Where(ex[0]), "the INSERT binds (key, chain) in that order")
+		errv := CallResult(ex[0], 1)
+		if errv == nil {
+			r.Fail(k+":error-used", r.Where(ex[0]), "the error of the INSERT is discarded")
+			continue
+		}
+		// which error numbers are swallowed?
+		cases, err := r.D.ConstTable(fn, "*.Number", nil)
+		if err != nil {
+			// no error-number test at all: every return after a failed Exec must carry the error
+			bad := false
+			reach := r.D.Walk(fn, Sigma{"nil?" + r.D.D(errv): "non"}, ex[0].Block(), nil)
+			r.Valuations++
+			for _, ret := range reachableReturns(fn, reach) {
+				if errKind(ret.Results[0]) == "nil" {
+					bad = true
+				}
+			}
+			r.Check(k+":failure-reported", !bad, r.Where(ex[0]), "a failed INSERT is reported to the caller")
+			continue
+		}
+		for _, c := range cases {
+			r.Valuations++
+			s := Sigma{"nil?" + r.D.D(errv): "non"}
+			for kk, vv := range c.Sigma {
+				s[kk] = vv
+			}
+			for kk := range r.D.AtomsOf(fn) {
+				if glob("errors.As(*)", kk) {
+					s[kk] = "T"
+				}
+			}
+			reach := r.D.Walk(fn, s, ex[0].Block(), nil)
+			swallowed := false
+			for _, ret := range reachableReturns(fn, reach) {
+				if errKind(ret.Results[0]) == "nil" {
+					swallowed = true
+				}
+			}
+			label := fmt.Sprint(c.Value)
+			if c.Default {
+				label = "other"
+			}
+			want := !c.Default && c.Value == 1062
+			r.Check(k+":error["+label+"]", swallowed == want, r.Where(ex[0]), fmt.Sprintf("driver error %s swallowed=%v (only 1062 'duplicate entry' means the chain is stored)", label, swallowed))
+		}
 	}
 }
